@@ -108,6 +108,35 @@ claim('C14',
       'Trusted: python ast, re._parser of the running interpreter, E1 types, E3c ownership summaries. A caller that '
       'mutates its own list after handing it to NamespaceIds is outside the library\'s control (observation O3).')
 
+claim('C03',
+      'structural rules over python ast with path facts: guarded-lookup rule on every read of the match result, '
+      'ordering and provenance rules on the if/elif chain of match(), dominance of the unknown-name rejection, '
+      'argument-provenance rules for the per-side name sets and the per-port lookup, raise classification',
+      'Static rule set: a port that no selection covers cannot pass silently or die with KeyError (every read of the '
+      'match result outside port_selection is a guarded lookup whose miss raises AdvShellError); explicit names are '
+      'tested before wildcards and each branch assigns the semantics of the selection it tested to the tested port; '
+      'the rejection of unknown names over both selections dominates the result; the semantics handed to each exposed '
+      'port is the lookup for that same port name; only requires ports are filtered and exactly by the injected flag; '
+      'provides/requires name sets reach the provides/requires selections; the construction-time rejections exist; '
+      'port_selection raises only configuration errors or argument validators; matching dominates file generation. '
+      'The accept/reject relation over all pairs of selections and name sets is value-level set algebra and is NOT '
+      'decided.',
+      'Trusted: python ast, E1 types, E2 path facts. Semantic matching of the rejection conditions is by the '
+      'operations they apply (equality of the selections, intersection/overlap, is_wildcard_all/is_not_empty).')
+
+claim('C07',
+      'call-site enumeration with argument provenance over python ast (alias normalisation, loop-binder tracking), '
+      'typestate rule on FindResult, kind-hint agreement, written-name-is-lookup-key-only rule',
+      'Static rule set for the generator\'s lookup discipline: every written name (port type, formal type, claim reply '
+      'type, encapsulee) is resolved with find_fqn from the referring scope the Dezyne rules prescribe (never suffix '
+      'search, never a scan of FileContents); a declaration leaves a FindResult only through get_single_instance '
+      '(0 or >1 matches raise); the kind hint equals the kind the result is used as; written names are never spelled '
+      'into the output and resolved declarations are rendered root-qualified from their own fqn; find_fqn matches by '
+      'whole-name equality. That scope_resolution_order yields the right chain of candidates is value-level (shape '
+      'decided by C14).',
+      'Trusted: python ast, E1 types, the reference table port->enclosing scope of the encapsulee, formal/reply type->'
+      'declaring interface scope (Dezyne scoping rules).')
+
 _pending = 'check not built yet in this round (design in DESIGN.md section 3); will be claimed when its rules run clean'
 for _n in range(1, 21):
     _p = f'C{_n:02d}'
